@@ -102,6 +102,9 @@ func h64(s string) uint64 {
 	return h.Sum64()
 }
 
+// H64 is the case-class hash (FNV-1a), exported for drivers that pass digests between processes.
+func H64(s string) uint64 { return h64(s) }
+
 func (c *Ctx) send(m msg) {
 	b, _ := json.Marshal(m)
 	c.out.Write(b)
